@@ -1,6 +1,12 @@
 package prog
 
-import "gogenverif/sim/imp"
+import (
+	"regexp"
+
+	"gogenverif/sim/imp"
+)
+
+var impLine = regexp.MustCompile(`^\t(p\d+) "[^"]+"$`)
 
 // Synthetics renders the synthetic imported packages of a program for the task importer.
 func (p *Program) Synthetics() []*imp.Synthetic {
@@ -9,4 +15,102 @@ func (p *Program) Synthetics() []*imp.Synthetic {
 		out = append(out, &imp.Synthetic{Path: x.Path, Files: map[string]string{"x.go": x.Source(p.XGo)}})
 	}
 	return out
+}
+
+// SplitDecls cuts generated source into the package clause (+imports) and top-level
+// declarations; generated files separate them by blank lines at column 0.
+func SplitDecls(text string) []string {
+	var chunks []string
+	var cur []string
+	flush := func() {
+		if len(cur) > 0 {
+			chunks = append(chunks, joinLines(cur))
+			cur = nil
+		}
+	}
+	depth := 0
+	for _, l := range splitLines(text) {
+		if l == "" && depth == 0 {
+			flush()
+			continue
+		}
+		cur = append(cur, l)
+		for _, ch := range l {
+			switch ch {
+			case '{', '(':
+				depth++
+			case '}', ')':
+				depth--
+			}
+		}
+	}
+	flush()
+	return chunks
+}
+
+func JoinDecls(chunks []string) string {
+	s := ""
+	for _, c := range chunks {
+		s += c + "\n\n"
+	}
+	return s
+}
+
+func splitLines(s string) []string {
+	var out []string
+	start := 0
+	for i := 0; i < len(s); i++ {
+		if s[i] == '\n' {
+			out = append(out, s[start:i])
+			start = i + 1
+		}
+	}
+	if start < len(s) {
+		out = append(out, s[start:])
+	}
+	return out
+}
+
+func joinLines(ls []string) string {
+	s := ""
+	for i, l := range ls {
+		if i > 0 {
+			s += "\n"
+		}
+		s += l
+	}
+	return s
+}
+
+// FixImports drops import lines of generated source whose alias is no longer used.
+func FixImports(text string) string {
+	lines := splitLines(text)
+	var out []string
+	for _, l := range lines {
+		if m := impLine.FindStringSubmatch(l); m != nil {
+			used := false
+			for _, o := range lines {
+				if o != l && containsUse(o, m[1]) {
+					used = true
+					break
+				}
+			}
+			if !used {
+				continue
+			}
+		}
+		out = append(out, l)
+	}
+	return joinLines(out) + "\n"
+}
+
+func containsUse(line, alias string) bool {
+	for i := 0; i+len(alias) < len(line); i++ {
+		if line[i:i+len(alias)] == alias && line[i+len(alias)] == '.' {
+			if i == 0 || !(line[i-1] == '_' || line[i-1] >= '0' && line[i-1] <= '9' || line[i-1] >= 'a' && line[i-1] <= 'z' || line[i-1] >= 'A' && line[i-1] <= 'Z') {
+				return true
+			}
+		}
+	}
+	return false
 }
